@@ -215,10 +215,16 @@ def should_format(node: AbbreviationNode, index: int, items: list, state: WalkSt
             if adjacent_inline >= config.options.get('output.inlineBreak'):
                 return True
 
-        # Edge case: inline node contains node that should receive formatting
-        for i, child in enumerate(node.children):
-            if should_format(child, i, node.children, state):
-                return True
+        # Edge case: inline node contains node that should receive formatting.
+        # Children are checked in the context of their own parent, not of the
+        # parent of the current node
+        state.parent = node
+        try:
+            for i, child in enumerate(node.children):
+                if should_format(child, i, node.children, state):
+                    return True
+        finally:
+            state.parent = parent
 
         return False
 
